@@ -315,6 +315,34 @@ def _misc(spec, ctx, R):
         r = U.A2A0123(M)
         ctx.check("a2a0123", len(r) == 4 and all(_eq(r[t], P[t]) for t in range(4)), site="A2A0123",
                   detail={"shape": [m, n]})
+    # EMPTY shapes (a dimension equal to zero: what slicing A[:0], A[:, k:k] or an empty selection produces).  "Every shape" includes them; the
+    # representations of an empty matrix are the empty matrices of the expanded shapes and the round trip returns an empty quaternion matrix
+    for m, n in ((0, 3), (3, 0), (0, 0), (0, 1), (1, 0), (0, 5), (2, 0)):
+        E = np.zeros((m, n), dtype=np.quaternion)
+        ctx.distinct("empty", m, n)
+        try:
+            Rr = np.asarray(U.real_expand(E))
+            ok = Rr.shape == (4 * m, 4 * n)
+            ctx.check("expand_entrywise", ok, site="real_expand:empty_shape", detail={"shape": [m, n], "got": list(Rr.shape)})
+            back = U.real_contract(Rr, m, n)
+            ctx.check("roundtrip_bits", np.shape(back) == (m, n) and np.asarray(back).dtype == np.quaternion, site="real_contract:empty_shape",
+                      detail={"shape": [m, n], "got": list(np.shape(back))})
+            back2 = U.real_contract(np.zeros((4 * m, 4 * n)), m, n)
+            ctx.check("roundtrip_bits", np.shape(back2) == (m, n), site="real_contract:empty_shape:fresh_array", detail={"shape": [m, n]})
+        except Exception as e:
+            ctx.check("roundtrip_bits", False, site="real_contract:empty_shape", detail={"shape": [m, n], "exception": repr(e)[:200]})
+        try:
+            Rp = np.asarray(U.Realp(*[np.zeros((m, n)) for _ in range(4)]))
+            ctx.check("realp_entrywise", Rp.shape == (4 * m, 4 * n), site="Realp:empty_shape", detail={"shape": [m, n], "got": list(Rp.shape)})
+        except Exception as e:
+            ctx.check("realp_entrywise", False, site="Realp:empty_shape", detail={"shape": [m, n], "exception": repr(e)[:200]})
+        if m == n:
+            try:
+                Ad = np.asarray(U.quaternion_to_complex_adjoint(E))
+                ctx.check("adjoint_entrywise", Ad.shape == (2 * n, 2 * n), site="complex_adjoint:empty_shape", detail={"got": list(Ad.shape)})
+            except Exception as e:
+                ctx.check("adjoint_entrywise", False, site="complex_adjoint:empty_shape", detail={"exception": repr(e)[:200]})
+        ctx.hit("shape:empty")
     # Realp scalar branch (used by ggivens) against the 4x4 L(q)
     for rep in range(40):
         q = refq.randq(rng, 1, 1)[0, 0] if rep >= 8 else [np.quaternion(1, 0, 0, 0), np.quaternion(0, 1, 0, 0),
